@@ -1,4 +1,5 @@
 import NasdaqModel.Lemmas.MonitorLemmas
+import NasdaqModel.Lemmas.SessionLemmas5
 /-
 C05 — every way of ending a session closes it once, completely, without error.
 
@@ -91,6 +92,46 @@ theorem C05_close_idempotent (cfg : Cfg) (s : St) (u : Nat) (hc : s.closed = tru
     (step cfg s (.callClose u)).trace = s.trace ++ [.ret u .ok] ∧
     (step cfg s (.callClose u)).cstage = s.cstage := by
   simp [step, hu, enterClose, hc, St.setStatus, St.setProg, runCont, St.emit, St.finish, CRes.toRes]
+
+/-- **The close never deadlocks.** In every reachable state in which the session reports closed but the close has not
+    run to its end, a definite task can take the next step of the close: the closer itself, or the (cancelled, hence
+    runnable) task the closer is awaiting at that moment. Together with the stage counter (at most six stages, each awaited
+    task ends in one step) this is the "never blocks forever" clause, for every interleaving and every trigger combination. -/
+theorem C05_close_never_deadlocks (cfg : Cfg) (evs : List Ev) (hc : (reach cfg evs).closed = true)
+    (hf : (reach cfg evs).cstage ≠ .finished) (ha : (reach cfg evs).cstage ≠ .aborted) :
+    ∃ t, runnable (reach cfg evs) t = true ∧
+      (isCloser (reach cfg evs) t ∨ ∃ t', isCloser (reach cfg evs) t' ∧ (reach cfg evs).status t' = .waitT t) := by
+  have h3 : InvA cfg (reach cfg evs) ∧ InvR (reach cfg evs) ∧ InvB (reach cfg evs) := runEvs_InvARB cfg evs
+  generalize reach cfg evs = s at *
+  obtain ⟨a, _, b⟩ := h3
+  have hne : s.cstage ≠ .idle := a.closed_iff.mp hc
+  cases hs : s.cstage with
+  | idle => exact absurd hs hne
+  | finished => exact absurd hs hf
+  | aborted => exact absurd hs ha
+  | body t pc c =>
+    obtain ⟨_, _, _, hal, hnq, _⟩ := b.bst t pc c hs
+    cases hst : s.status t with
+    | absent => rw [hst] at hal; simp [alive] at hal
+    | done => rw [hst] at hal; simp [alive] at hal
+    | waitQ => exact absurd hst hnq
+    | ready => exact ⟨t, by simp [runnable, hst], Or.inl (Or.inl ⟨pc, c, hs⟩)⟩
+    | cancelled => exact ⟨t, by simp [runnable, hst], Or.inl (Or.inl ⟨pc, c, hs⟩)⟩
+    | waitT x =>
+      have := (b.bwait t pc c x hs hst).2
+      exact ⟨x, by simp [runnable, this], Or.inr ⟨t, Or.inl ⟨pc, c, hs⟩, hst⟩⟩
+  | cb t k c =>
+    obtain ⟨_, hst, _⟩ := b.cb t k c hs
+    refine ⟨t, ?_, Or.inl (Or.inr ⟨k, c, hs⟩)⟩
+    rcases hst with h | h <;> simp [runnable, h]
+
+/-- **Completion is final**: once the close callback has returned, no event changes that. -/
+theorem C05_finished_is_final (cfg : Cfg) (evs : List Ev) (ev : Ev) (h : (reach cfg evs).cstage = .finished) :
+    (reach cfg (evs ++ [ev])).cstage = .finished := by
+  have hc : (reach cfg evs).closed = true := (runEvs_InvA cfg evs).closed_iff.mpr (by rw [h]; simp)
+  have : reach cfg (evs ++ [ev]) = step cfg (reach cfg evs) ev := by simp [reach, runEvs, List.foldl_append]
+  rw [this]
+  exact step_finished_final cfg _ ev hc h
 
 /-! ### non-vacuity: concrete lifetimes -/
 
